@@ -306,33 +306,57 @@ def _dedupe_pops(events, buf):
     return out
 
 
+def _const_diff(a, b):
+    """a - b when that is an integer constant (both integer-linear in the same symbols), else None."""
+    from .interp import lin_parse
+    terms, c = lin_parse(lin_add(a or '0', b or '0', -1))
+    return c if not terms else None
+
+
 def _tiling(pending, hi):
     """How the pending reads [(Read, (lo, hi))] are covered by one `del buf[:hi]`: [(Read, lo, end of the octets consumed with it)]
-    in stream order, or None when they overlap / reach beyond hi.  With integer offsets, octets between two reads that are consumed
-    but not read count as skipped with the read before them (as in `x = buf[:1]; del buf[:4]`); symbolic offsets must chain exactly."""
-    ints = _int(hi) is not None and all(_int(p[1][0] or '0') is not None and _int(p[1][1]) is not None for p in pending)
-    if ints:
-        ps = sorted(pending, key=lambda p: _int(p[1][0] or '0'))
-        out, cur = [], 0
-        for i, (r, (lo, h)) in enumerate(ps):
-            lo_i, h_i = _int(lo or '0'), _int(h)
-            nxt = _int(ps[i + 1][1][0] or '0') if i + 1 < len(ps) else _int(hi)
-            if lo_i < cur or h_i <= lo_i or nxt < h_i:
-                return None
-            out.append((r, str(lo_i), str(nxt)))
-            cur = nxt
-        return out
+    in stream order, or None when they overlap, leave a symbolic hole or reach beyond hi.  Offsets are integer-linear texts (8,
+    8 + n, 8 + n + v: lengths read earlier are symbols); the next read is the one whose offset equals the current position, or lies a
+    constant number of octets behind it - those octets are consumed but not read and count as skipped with the read before them (as
+    in `x = buf[:1]; del buf[:4]`)."""
+    if hi == '' or not pending:
+        return None
     left = list(pending)
     cur, out = '0', []
     while left:
-        nxt = [p for p in left if lin_norm(p[1][0] or '0') == cur]
-        if len(nxt) != 1 or nxt[0][1][1] == '':
+        best = None
+        for p in left:
+            if p[1][1] == '':
+                return None
+            d = _const_diff(p[1][0] or '0', cur)
+            if d is None:
+                continue
+            if d < 0:
+                return None              # starts before the end of what was already taken: overlap
+            if best is None or d < best[0]:
+                best = (d, p)
+        if best is None:
             return None
-        left.remove(nxt[0])
-        end = lin_norm(nxt[0][1][1])
-        out.append((nxt[0][0], cur, end))
-        cur = end
-    return out if cur == lin_norm(hi) else None
+        d, p = best
+        if d > 0:
+            if _int(cur) is None:
+                return None              # a hole behind a position that depends on the data is not part of a fixed layout
+            if out:
+                out[-1] = (out[-1][0], out[-1][1], lin_norm(p[1][0]))     # the hole is skipped with the read before it
+        w = _const_diff(p[1][1], p[1][0] or '0')
+        if w is not None and w <= 0:
+            return None
+        left.remove(p)
+        out.append((p[0], lin_norm(p[1][0] or '0'), lin_norm(p[1][1])))
+        cur = lin_norm(p[1][1])
+    tail = _const_diff(hi, cur)
+    if tail is None or tail < 0:
+        return None
+    if tail > 0:
+        if _int(cur) is None:
+            return None
+        out[-1] = (out[-1][0], out[-1][1], lin_norm(hi))
+    return out
 
 
 def _int(t):
